@@ -102,9 +102,9 @@ type asm struct {
 	fix   []int    // positions of the PUSH2 code-offset immediates, one per init
 }
 
-func (a *asm) op(o vm.OpCode)   { a.code = append(a.code, byte(o)) }
-func (a *asm) push1(v int)      { a.code = append(a.code, byte(vm.PUSH1), byte(v)) }
-func (a *asm) push2(v int)      { a.code = append(a.code, byte(vm.PUSH2), byte(v>>8), byte(v)) }
+func (a *asm) op(o vm.OpCode) { a.code = append(a.code, byte(o)) }
+func (a *asm) push1(v int)    { a.code = append(a.code, byte(vm.PUSH1), byte(v)) }
+func (a *asm) push2(v int)    { a.code = append(a.code, byte(vm.PUSH2), byte(v>>8), byte(v)) }
 func (a *asm) push20(x thor.Address) {
 	a.code = append(a.code, byte(vm.PUSH20))
 	a.code = append(a.code, x[:]...)
